@@ -99,7 +99,7 @@ def gen_recipe(rng):
     texts, args = [], []
     for i in range(nargs):
         r = rng.random()
-        if r < 0.75 or i == 0:
+        if r < 0.7 or (i == 0 and rng.random() < 0.5):      # a scalar may come first, before an area
             t, rows, by_rows = gen_area(rng, sheets, last_row)
             texts.append(t); args.append({'t': 'area', 'rows': rows, 'by_rows': by_rows})
         elif r < 0.85:
